@@ -38,6 +38,9 @@ class C14(Check):
             for j, r in zip(jobs, res):
                 if r.get("skipped"):
                     continue
+                if not r["ok"] and r.get("timeout"):
+                    stats["timeouts_inconclusive"] = stats.get("timeouts_inconclusive", 0) + 1
+                    continue
                 if not r["ok"]:
                     stats["crashes"] += 1
                     cls = simdrv.classify_crash(r)
